@@ -266,10 +266,16 @@ def d4_dependence(ctx, rep):
         for args, kws in unc:
             mean = args[0] if args else kws.get('mean')
             cov = args[1] if len(args) > 1 else kws.get('cov')
-            rep.check('D4.cov', fn, c, cov == 'CORR', 'covariance = self.correlation', f'covariance of the unconditional draw has kind {cov}, not the fitted correlation',
-                      construct='covariance of the unconditional draw')
-            rep.check('D4.cov', fn, c, mean in ('ZERO', ('num', 0)), 'mean = zeros', f'mean of the unconditional draw is {mean}, not zero',
-                      construct='mean of the unconditional draw')
+            if cov is TOP or cov is None:
+                rep.undecided('D4.cov', fn, c, 'what the covariance of the unconditional draw is was not derived', construct='covariance of the unconditional draw')
+            else:
+                rep.check('D4.cov', fn, c, cov == 'CORR', 'covariance = self.correlation', f'covariance of the unconditional draw has kind {cov}, not the fitted correlation',
+                          construct='covariance of the unconditional draw')
+            if mean is TOP or mean is None:
+                rep.undecided('D4.cov', fn, c, 'what the mean of the unconditional draw is was not derived', construct='mean of the unconditional draw')
+            else:
+                rep.check('D4.cov', fn, c, mean in ('ZERO', ('num', 0)), 'mean = zeros', f'mean of the unconditional draw is {mean}, not zero',
+                          construct='mean of the unconditional draw')
 
 
 def d5_allrows(ctx, rep):
